@@ -33,9 +33,12 @@ RULE = (
     'mode). History arms draw sequences of BatchDL / BatchDLOfDifferences / ExtendedBatchDL calls '
     'executed on ONE curve object; on named curves the logarithms are aimed at 0, 1, bound-1, '
     'j*t +- (ts-1), j*t +- ts with ts = int(sqrt(bound*len)), t = 2*ts-1 recomputed by the harness '
-    'only to aim. Structured keys: every shift j (multiple of 8 with w << j below the order for '
+    'only to aim; empty lists and a bound of 0 (nothing claimed, a list must come back) are '
+    'included. Structured keys: every shift j (multiple of 8 with w << j below the order for '
     'some 32-bit w, so also the windows that stick out of a 521-bit order) and every repeat count '
-    '2..ceil(bits/32) (with w*(1+2^32+...) below the order) per curve with w in {1, largest admissible, 2^31, giant-step edges, random}; close pairs at distance 1, 2, max_diff-1, random < max_diff, plus '
+    '2..ceil(bits/32) (with w*(1+2^32+...) below the order) per curve with w in {1, largest '
+    'admissible, 2^31, giant-step edges, random}; close pairs at distance 1, 2, max_diff-1, '
+    'random < max_diff, plus '
     'identical keys, far keys and unrelated keys on several curves. A case is non-trivial when '
     'some claimed logarithm sits on a table or giant-step edge (x mod t in {ts-1, ts}, x in '
     '{0, bound-1}), or a call is preceded by a call that left a cached table of a different size, '
@@ -388,8 +391,8 @@ def _toy_bounds(N, tier):
 
 
 def enum_toy_batchdl(tier):
-  lens = (1, 2, 3, 4, 5, 8, 13, 40) if tier == 'quick' else (1, 2, 3, 4, 5, 6, 7, 8, 11, 13,
-                                                               21, 40)
+  lens = (1, 2, 3, 4, 5, 8, 13, 40) if tier == 'quick' else (1, 2, 3, 4, 5, 7, 8, 13, 21,
+                                                               40)
   k = 0
   for c, lit in toy_curves(tier):
     N = c[5]
